@@ -7,12 +7,12 @@ Open Scope string_scope.
    every answer oracle (an arbitrary function of cluster and call index, for token reviews and for
    subject access reviews) and every sequence of operations (requests for any hosts with any
    tokens / attributes at any clock values, endpoint status changes, cluster replacement, cache
-   evictions), what the caller gets is either what the LAST review made during this very request
+   evictions, and pairs of overlapping requests), what the caller gets is either what the LAST review made during this very request
    means — and that review was answered by the request's own cluster — or, when no review was made, an
    answer the same cluster gave earlier to the same key, within its TTL and since that cluster was last
    replaced.  Never an answer of another cluster. *)
 Theorem C12_answer_provenance : forall cfg torc sorc ops,
-  let '(_, _, fresh, cached) := spec_ok cfg torc sorc (run cfg torc sorc (init cfg) ops) in
+  let '(_, _, fresh, cached) := spec_ok cfg torc sorc (runx cfg torc sorc (init cfg) ops) in
   fresh = true /\ cached = true.
 Proof. exact provenance_ok. Qed.
 Print Assumptions C12_answer_provenance.
@@ -66,9 +66,25 @@ Theorem C12_other_clusters_not_asked : forall cfg torc sorc s o c2,
 Proof. exact other_clusters_not_asked. Qed.
 Print Assumptions C12_other_clusters_not_asked.
 
+(* Two requests in flight at the same time, addressed to hosts of different clusters (or to a host
+   that names no cluster): whichever completes first, both callers get the same results, the same
+   reviews are sent, and the final state is the same (same endpoints, same cache contents for every
+   host and key, same review counters for every cluster).  So an overlap is equivalent to either
+   sequential order, and the model's [Ovl a b] = "a then b" loses nothing. *)
+Theorem C12_overlap_commutes : forall cfg torc sorc s a b,
+  is_request a = true -> is_request b = true ->
+  (op_cluster cfg a = None \/ op_cluster cfg b = None \/ op_cluster cfg a <> op_cluster cfg b) ->
+  let ra := step cfg torc sorc s a in
+  let rab := step cfg torc sorc (fst ra) b in
+  let rb := step cfg torc sorc s b in
+  let rba := step cfg torc sorc (fst rb) a in
+  snd ra = snd rba /\ snd rab = snd rb /\ state_eqv (fst rab) (fst rba).
+Proof. exact overlap_commutes. Qed.
+Print Assumptions C12_overlap_commutes.
+
 (* All four clauses of the executable specification hold on every history of the model. *)
 Theorem C12_history : forall cfg torc sorc ops,
-  spec_ok cfg torc sorc (run cfg torc sorc (init cfg) ops) = (true, true, true, true).
+  spec_ok cfg torc sorc (runx cfg torc sorc (init cfg) ops) = (true, true, true, true).
 Proof. exact history_ok. Qed.
 Print Assumptions C12_history.
 
@@ -140,18 +156,42 @@ Proof. split; [|split]; vm_compute; [discriminate|discriminate|reflexivity]. Qed
    wrong cluster fails clause 1 *)
 Example C12_spec_rejects_leak :
   spec_ok ex_cfg ex_torc ex_sorc
-    [(OHealthy "a" 0 true, OutNone); (OHealthy "b" 0 true, OutNone);
-     (OAuthn (Some "a") "tok" 0, OutT {| t_user := Some ("alice@a", "1"); t_ok := true; t_err := ENone |} [("a", true)]);
-     (OAuthn (Some "b") "tok" 1, OutT {| t_user := Some ("alice@a", "1"); t_ok := true; t_err := ENone |} [])]
+    [(One (OHealthy "a" 0 true), R1 OutNone); (One (OHealthy "b" 0 true), R1 OutNone);
+     (One (OAuthn (Some "a") "tok" 0), R1 (OutT {| t_user := Some ("alice@a", "1"); t_ok := true; t_err := ENone |} [("a", true)]));
+     (One (OAuthn (Some "b") "tok" 1), R1 (OutT {| t_user := Some ("alice@a", "1"); t_ok := true; t_err := ENone |} []))]
   = (true, true, true, false)
   /\
   spec_ok ex_cfg ex_torc ex_sorc
-    [(OHealthy "a" 0 true, OutNone); (OHealthy "b" 0 true, OutNone);
-     (OAuthn (Some "b") "tok" 0, OutT {| t_user := Some ("alice@a", "1"); t_ok := true; t_err := ENone |} [("a", true)])]
+    [(One (OHealthy "a" 0 true), R1 OutNone); (One (OHealthy "b" 0 true), R1 OutNone);
+     (One (OAuthn (Some "b") "tok" 0), R1 (OutT {| t_user := Some ("alice@a", "1"); t_ok := true; t_err := ENone |} [("a", true)]))]
   = (false, true, true, true)
   /\
   spec_ok ex_cfg ex_torc ex_sorc
-    [(OHealthy "a" 0 true, OutNone);
-     (OAuthz (Some "b") ex_attrs 0, OutS {| s_dec := DAllow; s_reason := "ok@a"; s_err := ENone |} [("a", true)])]
+    [(One (OHealthy "a" 0 true), R1 OutNone);
+     (One (OAuthz (Some "b") ex_attrs 0), R1 (OutS {| s_dec := DAllow; s_reason := "ok@a"; s_err := ENone |} [("a", true)]))]
   = (false, false, true, true).
 Proof. vm_compute. repeat split. Qed.
+
+(* overlapping requests: the same attributes for a host of a and a host of b while a's review is in
+   flight — b's caller gets b's own answer; the history in which it gets a's (no review sent to b) and
+   the later sequential request to b served from that poisoned entry are both rejected by clause 4 *)
+Example C12_overlap_nonvacuous :
+  let ops := [One (OHealthy "a" 0 true); One (OHealthy "b" 0 true);
+              Ovl (OAuthz (Some "a") ex_attrs 0) (OAuthz (Some "b") ex_attrs 0);
+              One (OAuthz (Some "b") ex_attrs 1)] in
+  map snd (runx ex_cfg ex_torc ex_sorc (init ex_cfg) ops) =
+  [R1 OutNone; R1 OutNone;
+   R2 (OutS {| s_dec := DAllow; s_reason := "ok@a"; s_err := ENone |} [("a", true)])
+      (OutS {| s_dec := DDeny; s_reason := "no@b"; s_err := ENone |} [("b", true)]);
+   R1 (OutS {| s_dec := DDeny; s_reason := "no@b"; s_err := ENone |} [])]
+  /\
+  (op_cluster ex_cfg (OAuthz (Some "a") ex_attrs 0) <> op_cluster ex_cfg (OAuthz (Some "b") ex_attrs 0))
+  /\
+  spec_ok ex_cfg ex_torc ex_sorc
+    [(One (OHealthy "a" 0 true), R1 OutNone); (One (OHealthy "b" 0 true), R1 OutNone);
+     (Ovl (OAuthz (Some "a") ex_attrs 0) (OAuthz (Some "b") ex_attrs 0),
+      R2 (OutS {| s_dec := DAllow; s_reason := "ok@a"; s_err := ENone |} [("a", true)])
+         (OutS {| s_dec := DAllow; s_reason := "ok@a"; s_err := ENone |} []));
+     (One (OAuthz (Some "b") ex_attrs 1), R1 (OutS {| s_dec := DAllow; s_reason := "ok@a"; s_err := ENone |} []))]
+  = (true, true, true, false).
+Proof. vm_compute. split; [reflexivity|]. split; [discriminate|reflexivity]. Qed.
